@@ -223,6 +223,12 @@ class RealWorld:
                 inner = self.objs[op[3]]
                 if op[1] == 'cbc':
                     self.objs[op[2]] = eng.create_cbc_io(0x2C, inner, bytes(16), **kw)
+                elif op[1] == 'cbc-direct':
+                    self.objs[op[2]] = e.CBCFileIO(inner, eng, 0x2C, bytes(16), **kw)
+                elif op[1] == 'ctr-direct':
+                    self.objs[op[2]] = e.CTRFileIO(inner, eng, 0x2C, 0, **kw)
+                elif op[1] == 'twl-direct':
+                    self.objs[op[2]] = e.TWLCTRFileIO(inner, eng, 0x01, 0, **kw)
                 else:
                     self.objs[op[2]] = eng.create_ctr_io(0x01 if op[1] == 'twl' else 0x2C, inner, 0, **kw)
                 return 'ok'
@@ -290,7 +296,7 @@ class C16(Check):
         return 150 if tier == 'quick' else 1500
 
     def exhaustive(self, tier):
-        for flavour in ('ctr', 'twl', 'cbc'):
+        for flavour in ('ctr', 'twl', 'cbc', 'ctr-direct', 'twl-direct', 'cbc-direct'):
             for cfd in (None, True, False):
                 for tail in ('wrap-close', 'wrap-inner-first', 'wrap-double'):
                     yield {'kind': 'wrapper', 'flavour': flavour, 'src': 'obj', 'cfd': cfd, 'sites': [], 'tail': tail, 'q': []}
